@@ -10,7 +10,8 @@ from .common import F_BASE, F_BC, calls, cfg_of, construct, loc, short
 from .grouped import _flatten_conditions
 
 EXPLANATION = (
-    "Decides: R-summary-scope (every loop of summary() that emits rows iterates the requested "
+    "Decides: in R-summary-scope also: in the loop over the (value, label) pairs of the label table no test reads the label (a row skipped on its label hides every member of the default group when labels are strings); the update_discretizer rules of C17 (R-edit-semantics, R-labels-refreshed, R-mode-first: summary() describes what transform does after an edit); "
+    "R-summary-scope (every loop of summary() that emits rows iterates the requested "
     "features or filters on membership in them, so summary(feature) holds rows of that feature only; "
     "the requested set is self.features or [feature], asserted to be a kept feature); "
     "R-single-table (summary takes labels from self.labels_per_values, the table transform uses, and "
@@ -89,6 +90,34 @@ def rule_summary_scope(ctx):
     guard = any(cmp_canon(c) == ("feature", "in", "self.features") for a in walk_no_nested(fi.node) if isinstance(a, ast.Assert) for c in conjuncts(a.test))
     ctx.ob(R, construct(fi, "requested features = all kept features, or the one kept feature asked for"), ok and guard, loc(fi),
            "" if (ok and guard) else f"assignments: {vals}, membership assertion: {guard}")
+
+
+def rule_summary_rows_by_value(ctx, R="R-summary-scope"):
+    """In the loop over the (value, label) pairs of the label table a row is skipped on a test of the
+    *value* only (the kept-NaN sentinel, a raw number, the default sentinel itself): a test that reads
+    the *label* removes every value that shares it -- the members of the default group are labelled
+    str_default when output_dtype='str', so `str_default in (value, label)` hides all of them while
+    transform still outputs that label."""
+    fi = ctx.repo.find_function(f"{F_BASE}::BaseDiscretizer.summary")
+    cfg = cfg_of(ctx, fi)
+    sink = "summaries"
+    for c in ast.walk(fi.node):
+        if isinstance(c, ast.Call) and call_name(c) == "DataFrame" and c.args and isinstance(c.args[0], ast.Name):
+            sink = c.args[0].id
+            break
+    n = 0
+    for e in _emits(fi.node, sink):
+        for l in cfg.enclosing_loops(e):
+            if isinstance(l, ast.For) and isinstance(l.target, ast.Tuple) and len(l.target.elts) == 2 and isinstance(l.iter, ast.Call) and call_name(l.iter) == "items" and all(isinstance(x, ast.Name) for x in l.target.elts):
+                label = l.target.elts[1].id
+                # every test in the body of that loop decides whether / how a row is emitted (nested guard clauses included)
+                tests = [x.test for x in ast.walk(l) if isinstance(x, (ast.If, ast.IfExp, ast.While))] + [i for x in ast.walk(l) if isinstance(x, ast.comprehension) for i in x.ifs]
+                bad = [t for t in tests if any(isinstance(x, ast.Name) and x.id == label for x in ast.walk(t))]
+                n += 1
+                ctx.ob(R, construct(fi, "rows of the label table are skipped on tests of the value, never of its label"), not bad, loc(fi, bad[0] if bad else e),
+                       "" if not bad else f"the row is emitted under a test that reads the label (`{unparse(bad[0])[:70]}`): every value carrying that label (the members of the default group when labels are strings) disappears from summary() although transform outputs it")
+    if n == 0:
+        raise AnalysisError("summary(): no row emitted in a loop over (value, label) pairs (anchor vanished)")
 
 
 def rule_summary_number_filter(ctx, R="R-summary-scope"):
@@ -303,6 +332,10 @@ def check(ctx):
     rule_history_complete(ctx)
     rule_history_fields(ctx)
     rule_summary_number_filter(ctx)
+    rule_summary_rows_by_value(ctx)
+    from . import c17
+
+    c17.rule_update(ctx)  # summary() reads features_dropna and labels_per_values: an edit must leave them describing what transform does
     from . import carver
     from .truthiness import check_optional_by_none
 
